@@ -619,8 +619,8 @@ func normTxMsg(m string) string {
 
 func runC13(c *Ctx) {
 	c.Rule("R13a", "tx typestate (E-tstate): on every path of migrateApplyRun + tx multiplexer, for every tx-mode × directive sequence × dry-run, the open/exec/commit/rollback trace follows the documented semantics of each file's effective mode", 7)
-	c.Rule("R13b", "dry-run dominance: driverFor tests dryRun before anything else and returns the dry-run wrappers; the wrappers declare every mutating method the executor calls; the executor that runs files is built from driverFor's pair; every other database-writing call of migrateApplyRun is guarded by !dryRun", 6)
-	c.Rule("R13c", "schema apply: applyChanges applies outside a transaction only on the true edge of txMode == none, rolls back on the error branch of ApplyChanges and commits otherwise; every call of applyChanges is guarded by !dryRun or autoApprove; dry-run and auto-approve are registered mutually exclusive", 6)
+	c.Rule("R13b", "dry-run dominance: driverFor tests dryRun before anything else and returns the dry-run wrappers; the wrappers declare every mutating method the executor calls; the executor that runs files is built from driverFor's pair; every other database-writing call of migrateApplyRun is guarded by !dryRun", 4)
+	c.Rule("R13c", "schema apply: applyChanges applies outside a transaction only on the true edge of txMode == none, rolls back on the error branch of ApplyChanges and commits otherwise; every call of applyChanges is guarded by !dryRun or autoApprove; dry-run and auto-approve are registered mutually exclusive", 4)
 	c.Rule("R13d", "the effective transaction mode has one derivation point: tx.mode is read only in modeFor (and the tx literal); decisions elsewhere use the per-file mode", 2)
 
 	runTxTypestate(c, "R13a")
